@@ -18,6 +18,7 @@ P == INSTANCE PropsEngine
 NoSty == <<"-", "-", "-">>
 Leaf(retry, fb, n)        == [kind |-> "leaf", retry |-> retry, fb |-> fb, func |-> FALSE, sty |-> NoSty, N |-> n, w |-> 0, start |-> 0]
 Func(fb, n, sty)          == [kind |-> "leaf", retry |-> TRUE,  fb |-> fb, func |-> TRUE,  sty |-> sty,   N |-> n, w |-> 0, start |-> 0]
+BLeaf(n)                  == [kind |-> "bleaf", retry |-> TRUE, fb |-> FALSE, func |-> FALSE, sty |-> NoSty, N |-> n, w |-> 0, start |-> 0]
 FlowNode(start)           == [kind |-> "flow", retry |-> TRUE,  fb |-> FALSE, func |-> FALSE, sty |-> NoSty, N |-> 1, w |-> 0, start |-> start]
 Styles == {<<a, b, c>> : a \in {"r", "a"}, b \in {"r", "a"}, c \in {"r", "a"}}
 
@@ -62,6 +63,14 @@ FlowCancelCfgs ==
   {[Base EXCEPT !.nodes = <<Leaf(TRUE, TRUE, 2), Leaf(FALSE, FALSE, 1), FlowNode(1)>>, !.top = 3,
                 !.conns = <<ConnSeq(3, Pairs2, tg)>>, !.acts = {1}, !.outs = {"ok", "err"}, !.cancel = TRUE, !.ctx0 = <<c0>>] :
       tg \in {t \in [1..4 -> Targets2] : t[1] \in {-1, 2} /\ t[2] = -1 /\ t[4] = -1 /\ t[3] \in {-1, 1}}, c0 \in BOOLEAN}
+\* a batch node as a step of a flow, with failures and cancellation anywhere (C04, C05, C18)
+Pairs3 == << <<1, 1>>, <<2, 1>>, <<3, 1>> >>
+FlowBatchCfgs ==
+  {[Base EXCEPT !.nodes = <<Leaf(TRUE, FALSE, 2), BLeaf(2), Leaf(FALSE, FALSE, 1), FlowNode(s)>>, !.top = 4,
+                !.conns = <<ConnSeq(4, Pairs3, tg)>>, !.acts = {0, 1}, !.outs = {"ok", "err"}, !.cancel = c, !.ctx0 = <<c0>>] :
+      s \in {1, 2}, tg \in {t \in [1..3 -> {-1, 0, 1, 2, 3}] : t[1] \in {-1, 2} /\ t[2] \in {-1, 3} /\ t[3] \in {-1, 0}},
+      c \in BOOLEAN, c0 \in BOOLEAN}
+
 \* overwriting Connects, a second run of the same flow object, re-connection between the runs
 RerunCfgs ==
   {[Base EXCEPT !.nodes = <<Leaf(TRUE, FALSE, 1), Leaf(FALSE, FALSE, 1), FlowNode(1)>>, !.top = 3,
@@ -101,6 +110,7 @@ Cfgs == CASE Family = "single"       -> SingleCfgs
           [] Family = "flowerr"      -> FlowErrCfgs
           [] Family = "flowcancel"   -> FlowCancelCfgs
           [] Family = "rerun"        -> RerunCfgs
+          [] Family = "flowbatch"    -> FlowBatchCfgs
           [] Family = "nest"         -> NestCfgs
           [] Family = "nesterr"      -> NestErrCfgs
           [] Family = "nest3"        -> Nest3Cfgs
